@@ -170,7 +170,7 @@ class GridFlow(WidgetWrap[Pile], WidgetContainerMixin, WidgetContainerListConten
             DeprecationWarning,
             stacklevel=2,
         )
-        focus_position = self.focus_position
+        focus_position = self.focus_position if self.contents else 0
         self.contents = [(new, (WHSettings.GIVEN, self._cell_width)) for new in widgets]
         if focus_position < len(widgets):
             self.focus_position = focus_position
@@ -442,10 +442,10 @@ class GridFlow(WidgetWrap[Pile], WidgetContainerMixin, WidgetContainerListConten
         #     ...])
 
         pile_focus = self._w.focus
-        if not pile_focus:
+        if pile_focus is None:
             return
         c = pile_focus.base_widget
-        if c.focus:
+        if c.focus is not None:  # an empty container cell is falsy but still the focus
             col_focus_position = c.focus_position
         else:
             col_focus_position = 0
